@@ -516,6 +516,12 @@ func genHostileDoc(t *rapid.T, format string) ([]byte, readOpts) {
 	o := readOpts{}
 	switch format {
 	case "srt", "vtt", "ssa":
+		if format == "ssa" && rapid.IntRange(0, 11).Draw(t, "degeneratecell") == 0 {
+			// a complete little script whose style line has every column the Format line names, one of them degenerate
+			cell := rapid.SampledFrom([]string{"&H", "&", "&H&", "&h", "H", "-", "", "&HGG", "&H-1", "0x"}).Draw(t, "cell")
+			col := rapid.SampledFrom([]string{"PrimaryColour", "SecondaryColour", "OutlineColour", "BackColour", "TertiaryColour", "Bold", "Fontsize", "Alignment", "Angle"}).Draw(t, "cellcol")
+			return []byte("[Script Info]\nTitle: t\n\n[V4 Styles]\nFormat: Name, " + col + "\nStyle: a," + cell + "\n\n[Events]\nFormat: Start, End, Style, Text\nDialogue: 0:00:01.00,0:00:02.00,a,x\n"), o
+		}
 		doc := docGen(format).Draw(t, "doc")
 		if rapid.IntRange(0, 3).Draw(t, "bytes") == 0 {
 			return mutateBytes(t, doc), o
